@@ -67,8 +67,6 @@ def run_instance(inst, prop, findings, kfdir, rundir, say):
             rec["status"] = "broken"; rec["notes"].append("harness error: %s (%s)" % (desc, name))
             continue
         rec["failures"].append(dict(name=name, desc=desc, prop=p, inputs=res["traces"].get(name, {}), log=res["log"]))
-    if not witness_ok:
-        rec["status"] = "broken"; rec["notes"].append("witness assertion not reachable (vacuous harness)")
     rec["sample_inputs"] = {k: v["text"] for k, v in (sample or {}).items()}
     # known-finding runs: region assumed, the listed assertion must fail
     for k, f in rel:
@@ -80,6 +78,9 @@ def run_instance(inst, prop, findings, kfdir, rundir, say):
         rec["queries"] += 1; rec["solver_s"] += r2["solver_s"]
         if r2["verdict"] == "inconclusive":
             rec["notes"].append("known finding %s: inconclusive" % f["id"]); continue
+        if any(V.classify(d)[0] == "witness" and r == "FAILURE" for d, r in r2["props"].values()) and not witness_ok:
+            witness_ok = True
+            rec["notes"].append("whole instance lies inside known-finding region %s (witness reachable only there)" % f["id"])
         pat = re.compile(f["assertion"])
         hit = [(n, d) for n, (d, r) in r2["props"].items() if r == "FAILURE" and pat.search(d)]
         if hit:
@@ -91,6 +92,8 @@ def run_instance(inst, prop, findings, kfdir, rundir, say):
             kind, p = V.classify(d)
             if r == "FAILURE" and kind in ("prop", "safety") and not pat.search(d) and not any(re.search(x, d) for x in f.get("also", [])):
                 rec["failures"].append(dict(name=n, desc=d, prop=p, inputs=r2["traces"].get(n, {}), log=r2["log"], region=f["id"]))
+    if not witness_ok:
+        rec["status"] = "broken"; rec["notes"].append("witness assertion not reachable (vacuous harness)")
     rec["wall_s"] = round(time.time() - t0, 1)
     if rec["status"] == "ok" and not rec["failures"] and not os.environ.get("VX_KEEP"):
         shutil.rmtree(wd, ignore_errors=True)
